@@ -229,3 +229,60 @@ theorem reverse_find?_of_unique (vis : List Nat) (f : Nat → Bool) (h : (vis.fi
     ← head?_eq_getLast?_of_length_le_one _ h]
 
 end Occa.Functional
+
+namespace Occa.Functional
+open Occa Occa.Gen
+
+/-- two step functions that agree on every accumulator satisfying an invariant give the same fold -/
+theorem foldl_congr_inv {α β : Type} (P : β → Prop) (f f' : β → α → β)
+    (h : ∀ acc x, P acc → f acc x = f' acc x ∧ P (f' acc x)) :
+    ∀ (l : List α) (acc : β), P acc → l.foldl f acc = l.foldl f' acc := by
+  intro l
+  induction l with
+  | nil => intro acc _; rfl
+  | cons x t ih =>
+    intro acc hp
+    simp only [List.foldl_cons]
+    rw [(h acc x hp).1]
+    exact ih _ (h acc x hp).2
+
+theorem cpuReduce_congr_inv (P : Int → Prop) (f f' : Int → Int → Int) (comb : Int → Int → Int) (len init : Int)
+    (h : ∀ acc x, P acc → f acc x = f' acc x ∧ P (f' acc x)) (hi : P init) :
+    cpuReduce len init f comb = cpuReduce len init f' comb := by
+  unfold cpuReduce cpuPartial
+  have : (fun (k : Nat) => (forVals (cpuStartIndex len k) (cpuEndIndex len k) 1).foldl f init) =
+      (fun (k : Nat) => (forVals (cpuStartIndex len k) (cpuEndIndex len k) 1).foldl f' init) := by
+    funext k
+    exact foldl_congr_inv P f f' h _ init hi
+  rw [this]
+
+/-- the minimum of a start value and a list -/
+theorem foldl_minI_le (l : List Int) : ∀ a : Int, l.foldl minI a ≤ a ∧ ∀ x ∈ l, l.foldl minI a ≤ x := by
+  induction l with
+  | nil => intro a; exact ⟨Int.le_refl _, fun _ h => by cases h⟩
+  | cons y t ih =>
+    intro a
+    simp only [List.foldl_cons]
+    obtain ⟨h1, h2⟩ := ih (minI a y)
+    have hm : minI a y ≤ a ∧ minI a y ≤ y := by rw [minI_eq]; omega
+    refine ⟨by omega, ?_⟩
+    intro x hx
+    rcases List.mem_cons.mp hx with rfl | hx
+    · omega
+    · exact h2 x hx
+
+theorem foldl_minI_mem (l : List Int) : ∀ a : Int, l.foldl minI a = a ∨ l.foldl minI a ∈ l := by
+  induction l with
+  | nil => intro a; exact Or.inl rfl
+  | cons y t ih =>
+    intro a
+    simp only [List.foldl_cons]
+    rcases ih (minI a y) with h | h
+    · rw [h]
+      have : minI a y = a ∨ minI a y = y := by rw [minI_eq]; omega
+      rcases this with e | e
+      · exact Or.inl e
+      · exact Or.inr (by rw [e]; simp)
+    · exact Or.inr (List.mem_cons_of_mem _ h)
+
+end Occa.Functional
